@@ -511,7 +511,7 @@ func execBig(cmpName, prog string) string {
 	if b.cmp == nil {
 		return "BAD"
 	}
-	res := tr.Guard(120*time.Second, func() {
+	res := tr.Guard(bigWatchdog, func() {
 		for _, m := range strings.Split(prog, ";") {
 			b.do(m)
 			if b.bad {
@@ -539,6 +539,7 @@ type big struct {
 	ms     []string
 	run    *bigRun
 	broken bool
+	hung   string // set when the steering copy ran away: the output of the line, not executed again
 	tags   map[string]bool
 }
 
@@ -548,10 +549,22 @@ func newBig(g *tr.G, cmp string) *big {
 
 func (b *big) add(m string) {
 	b.ms = append(b.ms, m)
-	if !b.broken && (tr.Guard(120*time.Second, func() { b.run.do(m) }) != "" || b.run.bad) {
+	if b.broken {
+		return
+	}
+	before := len(b.run.outs)
+	res := tr.Guard(bigWatchdog, func() { b.run.do(m) })
+	if res == "hang" {
+		// the run-away call keeps its goroutine; what the line had delivered before it is the output
+		b.hung = strings.Join(append(append([]string(nil), b.run.outs[:before]...), "hang"), ";")
+	}
+	if res != "" || b.run.bad {
 		b.broken = true
 	}
 }
+
+// bigWatchdog: the biggest B line takes well under a second on the real package.
+const bigWatchdog = 20 * time.Second
 
 func (b *big) New(β int) int { b.add("N" + strconv.Itoa(β)); return len(b.run.trees) - 1 }
 
@@ -574,7 +587,7 @@ func (b *big) Bulk(β int, k ks) int {
 	// which member of every class did the implementation keep?
 	var picks []int
 	if !b.broken {
-		if tr.Guard(120*time.Second, func() {
+		if tr.Guard(bigWatchdog, func() {
 			arg := make([]E, len(keys))
 			for i, x := range keys {
 				arg[i] = E{x, p0 + 1 + i}
@@ -636,7 +649,14 @@ func (b *big) emit(tags ...string) {
 	}
 	b.g.W.Count("big-delete-rebuild", b.run.rebuilds)
 	sort.Strings(tags)
-	out := b.g.Emit("B "+b.cmp+" "+strings.Join(b.ms, ";"), true, tags...)
+	in := "B " + b.cmp + " " + strings.Join(b.ms, ";")
+	var out string
+	if b.hung != "" {
+		out = b.hung
+		b.g.W.Case(in, out, true, tags...)
+	} else {
+		out = b.g.Emit(in, true, tags...)
+	}
 	if strings.Contains(out, "panic:") || strings.Contains(out, "hang") {
 		b.g.W.Count("impl-panic", 1)
 	}
@@ -856,7 +876,7 @@ func genTwoChildBig(g *tr.G, n, β int, pat byte, cmp string) {
 	for round := 0; round < 12 && !b.broken; round++ {
 		var keys, succs []E
 		var depths []int
-		if tr.Guard(60*time.Second, func() { keys, succs, depths = deepSuccessors(b.run.trees[t]) }) != "" || len(keys) == 0 {
+		if tr.Guard(bigWatchdog, func() { keys, succs, depths = deepSuccessors(b.run.trees[t]) }) != "" || len(keys) == 0 {
 			break
 		}
 		pick := 0
